@@ -16,7 +16,7 @@ def hierarchy_scripts(rng, tier):
     import scripts as gen_scripts
     for i in range(20 if tier == "quick" else 600):
         lines, meta = gen_scripts.gen_script(rng, late_join=rng.random() < 0.5, max_size=rng.choice([None, 1, 60]), burst=0.1, length=rng.choice([25, 40]))
-        lines[0] += " tick0=%d" % rng.choice([2**7 - 2, 2**14 - 3, 2**21 - 2, 2**28 - 3, 2**28 + 7, 2**31 - 20])
+        lines[0] += " tick0=%d" % rng.choice([2**7 - 2, 2**14 - 3, 2**21 - 2, 2**28 - 3, 2**28 + 7, 2**30 + 11])
         sf = len(lines)
         out.append(("long-uptime-%d" % i, lines + gen_scripts.settle_lines(meta), sf))
     return out
@@ -34,7 +34,7 @@ def run(tier, seed, replay):
     kws = [dict(burst=0.08), dict(burst=0.08, max_size=1), dict(sessions=True), dict(nclients=3, length=90), dict(max_size=1), dict(policy="black"), dict(policy="white", auth="custom"),
            dict(max_size=1, quiet_tail=1.0, length=25), dict(max_size=30, quiet_tail=1.0, nclients=2, timeout=60), dict(auth="proto", nclients=2)]
     return sim_check("C01", tier, seed, kws, n_quick=240, n_thorough=24000,
-                     oracle_props={"C01"}, known_ids=("D02", "D16", "D16b", "D16c", "D17", "D19", "D25"), impl_only_scripts=hierarchy_scripts, custom_scripts=special_scripts,
+                     oracle_props={"C01"}, known_ids=("D02", "D16", "D16b", "D16c", "D17", "D19", "D25", "D31"), impl_only_scripts=hierarchy_scripts, custom_scripts=special_scripts,
                      rule_extra=", plus implementation-only scripts with a replicated ChildOf hierarchy (attach, re-parent, detach, recursive despawns, hide/un-replicate) outside the D16 class",
                      extra_assumptions=["convergence itself is NOT proved as a theorem (see Properties/C01.v): it is decided here by model/implementation correspondence plus the "
                                         "implementation-side convergence oracle after a lossless settle phase; the Coq part proves the refutations on the known-finding witnesses and the "
